@@ -4,6 +4,7 @@ import (
 	"go/constant"
 	"go/token"
 	"go/types"
+	"sort"
 
 	"golang.org/x/tools/go/ssa"
 )
@@ -42,102 +43,6 @@ func c11CallOf(v ssa.Value, obj types.Object, idx int) ssa.CallInstruction {
 	return call
 }
 
-// c11Origins: the leaf values v may carry, through phis, value-preserving conversions and loads of
-// local cells. Unlike the shared origins() a slice expression is a leaf of its own: x[:n] is not x
-// (a comparison against a truncated operand is a different comparison).
-func c11Origins(v ssa.Value) []ssa.Value {
-	seen := map[ssa.Value]bool{}
-	var out []ssa.Value
-	var walk func(v ssa.Value, d int)
-	walk = func(v ssa.Value, d int) {
-		if v == nil || seen[v] {
-			return
-		}
-		seen[v] = true
-		switch x := v.(type) {
-		case *ssa.Phi:
-			if d < 50 {
-				for _, e := range x.Edges {
-					walk(e, d+1)
-				}
-				return
-			}
-		case *ssa.ChangeType:
-			walk(x.X, d+1)
-			return
-		case *ssa.ChangeInterface:
-			walk(x.X, d+1)
-			return
-		case *ssa.MakeInterface:
-			walk(x.X, d+1)
-			return
-		case *ssa.UnOp:
-			if al, ok := x.X.(*ssa.Alloc); ok && x.Op == token.MUL && d < 50 {
-				n := 0
-				for _, r := range *al.Referrers() {
-					if st, ok := r.(*ssa.Store); ok && st.Addr == ssa.Value(al) {
-						n++
-						walk(st.Val, d+1)
-					}
-				}
-				if n > 0 {
-					return
-				}
-			}
-		}
-		out = append(out, v)
-	}
-	walk(v, 0)
-	return out
-}
-
-// c11From: every origin of v (through phis, conversions, local cells) is result #idx of a call to obj.
-func c11From(fn *ssa.Function, v ssa.Value, obj types.Object, idx int) bool {
-	os := c11Origins(v)
-	if len(os) == 0 {
-		return false
-	}
-	for _, o := range os {
-		if c11CallOf(o, obj, idx) == nil {
-			return false
-		}
-	}
-	return true
-}
-
-// c11IsField: v is a load of field f (of any base).
-func c11IsField(v ssa.Value, f *types.Var) bool { return f != nil && readsField(v, f) }
-
-// c11CmpEdges scans fn for branches on "X == Y" / "X != Y" (negations folded) whose operands satisfy
-// match in either order; returns the edges on which the operands are equal, resp. different.
-func c11CmpEdges(fn *ssa.Function, match func(x, y ssa.Value) bool) (eq, ne []Edge) {
-	for _, b := range fn.Blocks {
-		ifi := blockIf(b)
-		if ifi == nil {
-			continue
-		}
-		a := condAtom(ifi.Cond)
-		if a.Op != token.EQL && a.Op != token.NEQ {
-			continue
-		}
-		if !match(a.X, a.Y) && !match(a.Y, a.X) {
-			continue
-		}
-		isEq := a.Op == token.EQL
-		if a.Neg {
-			isEq = !isEq
-		}
-		if isEq {
-			eq = append(eq, Edge{b, 0})
-			ne = append(ne, Edge{b, 1})
-		} else {
-			eq = append(eq, Edge{b, 1})
-			ne = append(ne, Edge{b, 0})
-		}
-	}
-	return
-}
-
 // c11Targets converts return points to path targets.
 func c11Targets(rs []RetPoint) []Target {
 	var out []Target
@@ -172,12 +77,13 @@ func (c *Ctx) c11MustPass(rule, construct string, fn *ssa.Function, start *Point
 type c11Anchors struct {
 	client, server                                        *ssa.Function
 	store                                                 *ssa.Function // storeAuthError
-	getInt, getID, getRaw, getToken                       *ssa.Function
-	computeMAC, verifyMAC, bytesEq                        *ssa.Function
+	getInt, getID, getRaw                                 *ssa.Function
+	computeMAC                                            *ssa.Function
+	bytesEq                                               *ssa.Function // optional: nil when the comparisons use bytes.Equal / hmac.Equal directly
 	validate, timing, loadKey, computeSig, deriveKeys     *ssa.Function
-	step1c, step2c, step3c, step1s, step2s, step3s        *ssa.Function
+	step1c, step2c, step1s, step2s, step3s                *ssa.Function
 	fClientID, fServerID, fRA, fRB, fToken, fSig, fK, fKP *types.Var
-	fAuthErr, fStatus, fSession, fUser                    *types.Var
+	fAuthErr, fStatus, fUser                              *types.Var
 	okVal, errVal                                         int64
 	okAll                                                 bool
 }
@@ -201,17 +107,22 @@ func (c *Ctx) c11Need(rule string) *c11Anchors {
 	a.client = fn("(*Authenticator).performTokenAuthenticationClient")
 	a.server = fn("(*Authenticator).performTokenAuthenticationServer")
 	a.store = fn("(*Authenticator).storeAuthError")
-	a.getInt, a.getID, a.getToken = fn("getInt"), fn("getIDString"), fn("getToken")
+	a.getInt, a.getID = fn("getInt"), fn("getIDString")
 	a.getRaw = fn("(*Authenticator).getRawBytes")
-	a.computeMAC, a.verifyMAC, a.bytesEq = fn("(*Authenticator).computeTokenMAC"), fn("(*Authenticator).verifyTokenMAC"), fn("bytesEqual")
+	a.computeMAC = fn("(*Authenticator).computeTokenMAC")
+	// bytesEqual and verifyTokenMAC are helpers the comparisons may or may not go through: they are
+	// followed when called, not required to exist
+	if f := c.LookupFn("security", "bytesEqual"); f != nil && f.Blocks != nil {
+		a.bytesEq = f
+	}
 	a.validate, a.timing = fn("(*Authenticator).validateTokenAndDeriveKeys"), fn("(*Authenticator).validateTokenTiming")
 	a.loadKey, a.computeSig, a.deriveKeys = fn("(*Authenticator).loadSigningKey"), fn("(*Authenticator).computeTokenSignature"), fn("(*Authenticator).deriveTokenKeys")
-	a.step1c, a.step2c, a.step3c = fn("(*Authenticator).sendClientTokenStep1"), fn("(*Authenticator).receiveTokenStep2"), fn("(*Authenticator).sendClientTokenStep3")
+	a.step1c, a.step2c = fn("(*Authenticator).sendClientTokenStep1"), fn("(*Authenticator).receiveTokenStep2")
 	a.step1s, a.step2s, a.step3s = fn("(*Authenticator).receiveServerTokenStep1"), fn("(*Authenticator).sendServerTokenStep2"), fn("(*Authenticator).receiveServerTokenStep3")
 	const T = "TokenAuthData"
 	a.fClientID, a.fServerID, a.fRA, a.fRB = fld(T, "ClientID"), fld(T, "ServerID"), fld(T, "RA"), fld(T, "RB")
 	a.fToken, a.fSig, a.fK, a.fKP = fld(T, "Token"), fld(T, "Signature"), fld(T, "SharedKeyK"), fld(T, "SharedKeyKP")
-	a.fAuthErr, a.fStatus, a.fSession = fld(T, "AuthError"), fld(T, "ErrorStatus"), fld(T, "SessionKey")
+	a.fAuthErr, a.fStatus = fld(T, "AuthError"), fld(T, "ErrorStatus")
 	a.fUser = fld("SecurityNegotiation", "User")
 	var k1, k2 bool
 	a.okVal, k1 = c.c11ConstInt(rule, "AUTH_PW_A_OK")
@@ -223,28 +134,6 @@ func (c *Ctx) c11Need(rule string) *c11Anchors {
 		return nil
 	}
 	return a
-}
-
-// c11StoreCalls lists the storeAuthError calls of fn (deferred failures).
-func (a *c11Anchors) storeCalls(fn *ssa.Function) []ssa.Instruction {
-	var out []ssa.Instruction
-	for _, cs := range callsIn(fn, a.store.Object()) {
-		out = append(out, cs)
-	}
-	return out
-}
-
-// c11FieldStores lists the stores to field f in fn (not in closures).
-func c11FieldStores(fn *ssa.Function, f *types.Var) []*ssa.Store {
-	var out []*ssa.Store
-	allInstrs(fn, func(_ *ssa.BasicBlock, _ int, in ssa.Instruction) {
-		if st, ok := in.(*ssa.Store); ok {
-			if fa, ok := st.Addr.(*ssa.FieldAddr); ok && fieldOfAddr(fa) == f {
-				out = append(out, st)
-			}
-		}
-	})
-	return out
 }
 
 // c11Writers returns the top-level functions of the module that write field f (stores, or let its
@@ -260,149 +149,6 @@ func (c *Ctx) c11Writers(f *types.Var, within map[*ssa.Function]bool) map[*ssa.F
 		}
 		out[topFn(acc.Fn)] = acc.Instr.Pos()
 	}
-	return out
-}
-
-// c11TokenPart: v is a JSON object decoded from part #k of strings.Split(<Token field or tokenParam>, "."):
-// either a load of a local map cell filled by json.Unmarshal(base64.DecodeString(parts[k]), &cell), or
-// result #0 of a helper (decodeJWTSegment) doing the same on parts[k]. Returns k, ok.
-func (c *Ctx) c11TokenPart(fn *ssa.Function, v ssa.Value, isSource func(ssa.Value) bool) (int, bool) {
-	partIdx := func(s ssa.Value) (int, bool) { // s is parts[k]
-		ld, ok := s.(*ssa.UnOp)
-		if !ok || ld.Op != token.MUL {
-			return 0, false
-		}
-		ia, ok := ld.X.(*ssa.IndexAddr)
-		if !ok {
-			return 0, false
-		}
-		k, isC := constInt(ia.Index)
-		if !isC {
-			return 0, false
-		}
-		for _, o := range c11Origins(ia.X) {
-			call, _ := originCall(o)
-			if call == nil {
-				return 0, false
-			}
-			if co := calleeObj(call); co == nil || co.Pkg() == nil || co.Pkg().Path() != "strings" || co.Name() != "Split" {
-				return 0, false
-			}
-			sep, isS := constString(call.Common().Args[1])
-			if !isS || sep != "." || !isSource(call.Common().Args[0]) {
-				return 0, false
-			}
-		}
-		return int(k), true
-	}
-	decoded := func(g *ssa.Function, b ssa.Value, src func(ssa.Value) (int, bool)) (int, bool) { // b = DecodeString(src)#0
-		call, i := originCall(b)
-		if call == nil || i != 0 {
-			return 0, false
-		}
-		if co := calleeObj(call); co == nil || co.Pkg() == nil || co.Pkg().Path() != "encoding/base64" || co.Name() != "DecodeString" {
-			return 0, false
-		}
-		args := call.Common().Args
-		return src(args[len(args)-1])
-	}
-	unmarshalInto := func(g *ssa.Function, cell ssa.Value, src func(ssa.Value) (int, bool)) (int, bool) {
-		res, found := 0, false
-		bad := false
-		allInstrs(g, func(_ *ssa.BasicBlock, _ int, in ssa.Instruction) {
-			call, ok := in.(*ssa.Call)
-			if !ok {
-				return
-			}
-			co := calleeObj(call)
-			if co == nil || co.Pkg() == nil || co.Pkg().Path() != "encoding/json" || co.Name() != "Unmarshal" {
-				return
-			}
-			if stripConv(call.Call.Args[1]) != cell {
-				return
-			}
-			k, ok := decoded(g, call.Call.Args[0], src)
-			if !ok || (found && k != res) {
-				bad = true
-				return
-			}
-			res, found = k, true
-		})
-		return res, found && !bad
-	}
-	// form 1: load of a local cell
-	if ld, ok := v.(*ssa.UnOp); ok && ld.Op == token.MUL {
-		if cell, ok := ld.X.(*ssa.Alloc); ok {
-			return unmarshalInto(fn, cell, partIdx)
-		}
-	}
-	// form 2: result #0 of a same-package helper h(parts[k]) that decodes its parameter
-	if call, i := originCall(v); call != nil && i == 0 {
-		h := calleeFn(call)
-		if h != nil && h.Blocks != nil && len(h.Params) == 1 && len(call.Common().Args) == 1 {
-			okAll, n := true, 0
-			for _, r := range c.successTargets(h) {
-				n++
-				rv := r.Ret.Results[0]
-				ld, ok := rv.(*ssa.UnOp)
-				if !ok || ld.Op != token.MUL {
-					okAll = false
-					continue
-				}
-				cell, ok := ld.X.(*ssa.Alloc)
-				if !ok {
-					okAll = false
-					continue
-				}
-				if _, ok := unmarshalInto(h, cell, func(s ssa.Value) (int, bool) { return 0, s == ssa.Value(h.Params[0]) }); !ok {
-					okAll = false
-				}
-			}
-			if okAll && n > 0 {
-				return partIdx(call.Common().Args[0])
-			}
-		}
-	}
-	return 0, false
-}
-
-// c11ClaimString: v is the string value of claim key of the JSON object obj:
-// Extract #0 of TypeAssert(string, comma-ok or not) of (Extract #0 of) Lookup(obj, key). Returns obj.
-func c11ClaimString(v ssa.Value, key string) (obj ssa.Value, ok bool) {
-	if ex, isEx := v.(*ssa.Extract); isEx && ex.Index == 0 {
-		v = ex.Tuple
-	}
-	ta, isTA := v.(*ssa.TypeAssert)
-	if !isTA {
-		return nil, false
-	}
-	if bt, isB := ta.AssertedType.Underlying().(*types.Basic); !isB || bt.Kind() != types.String {
-		return nil, false
-	}
-	x := ta.X
-	if ex, isEx := x.(*ssa.Extract); isEx && ex.Index == 0 {
-		x = ex.Tuple
-	}
-	lk, isLk := x.(*ssa.Lookup)
-	if !isLk {
-		return nil, false
-	}
-	if s, isS := constString(lk.Index); !isS || s != key {
-		return nil, false
-	}
-	return lk.X, true
-}
-
-// c11Lookups lists the map lookups m[key] in fn.
-func c11Lookups(fn *ssa.Function, key string) []*ssa.Lookup {
-	var out []*ssa.Lookup
-	allInstrs(fn, func(_ *ssa.BasicBlock, _ int, in ssa.Instruction) {
-		if lk, ok := in.(*ssa.Lookup); ok {
-			if s, isS := constString(lk.Index); isS && s == key {
-				out = append(out, lk)
-			}
-		}
-	})
 	return out
 }
 
@@ -458,4 +204,1286 @@ func c11Rels(fn *ssa.Function, isL, isR func(ssa.Value) bool) []c11Rel {
 		}
 	}
 	return out
+}
+
+// ---------------------------------------------------------------------------
+// following same-package helpers
+//
+// The rules look for checks (branch edges), stores and calls "in function f". A behaviour-preserving
+// refactoring may move any of them into an unexported helper (a boolean predicate, an error-returning
+// step, a value-producing helper, a setter), inline a helper, or materialise a condition in a local
+// boolean. The machinery below lets a rule state a fact once, at the level of the atomic comparison /
+// call / store, and finds it wherever it is written:
+//
+//   c11Env    a function body seen through a chain of call sites (parameters bound to arguments);
+//   c11LV     a value located in such a body; c11Leaves / c11All resolve provenance through phis,
+//             local cells, parameters (to the caller's argument) and returned values of helpers;
+//   c11Fact   what establishes the fact: a boolean value being true/false, an instruction executing,
+//             a call returning a nil error;
+//   c11Query  cut sets per body: direct hits, plus calls to helpers whose body establishes the fact
+//             on every path to a return (the call itself), to a nil-error return (the call's
+//             nil-error edges) or to a return of true/false (the edges on which the call's result
+//             is true/false). A branch on a boolean phi counts through the incoming edge that
+//             carries the establishing value (Cuts.AddVia).
+//
+// Helpers are followed inside the package of the root function, to InlineDepth, never recursively.
+
+type c11Env struct {
+	fn     *ssa.Function
+	call   ssa.CallInstruction // the call in parent.fn through which fn is seen; nil for a root
+	parent *c11Env
+	depth  int
+	kids   map[ssa.CallInstruction]*c11Env
+}
+
+func c11Root(fn *ssa.Function) *c11Env { return &c11Env{fn: fn} }
+
+// root returns the outermost environment of the chain.
+func (e *c11Env) root() *c11Env {
+	for e.parent != nil {
+		e = e.parent
+	}
+	return e
+}
+
+// enter returns the environment of the body called by call (an instruction of e.fn), or nil when
+// the callee cannot be followed: dynamic, no body, another package, recursive, too deep, go/defer.
+func (e *c11Env) enter(call ssa.CallInstruction) *c11Env {
+	if e == nil || call == nil {
+		return nil
+	}
+	if k, ok := e.kids[call]; ok {
+		return k
+	}
+	if e.kids == nil {
+		e.kids = map[ssa.CallInstruction]*c11Env{}
+	}
+	var k *c11Env
+	if _, isCall := call.(*ssa.Call); isCall && call.Parent() == e.fn && e.depth < InlineDepth {
+		g := calleeFn(call)
+		if g != nil && g.Blocks != nil && fnPkg(g) != nil && fnPkg(g) == fnPkg(e.root().fn) && len(g.Params) == len(call.Common().Args) {
+			rec := false
+			for a := e; a != nil; a = a.parent {
+				if a.fn == g {
+					rec = true
+				}
+			}
+			if !rec {
+				k = &c11Env{fn: g, call: call, parent: e, depth: e.depth + 1}
+			}
+		}
+	}
+	e.kids[call] = k
+	return k
+}
+
+// arg maps a parameter of e.fn to the caller's argument (nil for a root or a foreign parameter).
+func (e *c11Env) arg(p *ssa.Parameter) ssa.Value {
+	if e == nil || e.call == nil || e.parent == nil {
+		return nil
+	}
+	for i, q := range e.fn.Params {
+		if q == p && i < len(e.call.Common().Args) {
+			return e.call.Common().Args[i]
+		}
+	}
+	return nil
+}
+
+// envOf returns the environment in e's chain whose body is fn, or a fresh root for fn.
+func (e *c11Env) envOf(fn *ssa.Function) *c11Env {
+	for a := e; a != nil; a = a.parent {
+		if a.fn == fn {
+			return a
+		}
+	}
+	return &c11Env{fn: fn}
+}
+
+// c11LV is a value located in a body.
+type c11LV struct {
+	V ssa.Value
+	E *c11Env
+}
+
+// c11Leaves: the leaf values lv may carry, through phis, value-preserving conversions, loads of
+// local variable cells (also cells captured by closures) and parameters of followed helpers.
+// Slice expressions and Convert stay leaves: x[:n] is not x (a comparison against a truncated
+// operand is a different comparison).
+func c11Leaves(lv c11LV) []c11LV {
+	seen := map[c11LV]bool{}
+	var out []c11LV
+	var walk func(lv c11LV, d int)
+	walk = func(lv c11LV, d int) {
+		if lv.V == nil || seen[lv] {
+			return
+		}
+		seen[lv] = true
+		if d > 60 {
+			out = append(out, lv)
+			return
+		}
+		switch x := lv.V.(type) {
+		case *ssa.Phi:
+			for _, e := range x.Edges {
+				walk(c11LV{e, lv.E}, d+1)
+			}
+			return
+		case *ssa.ChangeType:
+			walk(c11LV{x.X, lv.E}, d+1)
+			return
+		case *ssa.ChangeInterface:
+			walk(c11LV{x.X, lv.E}, d+1)
+			return
+		case *ssa.MakeInterface:
+			walk(c11LV{x.X, lv.E}, d+1)
+			return
+		case *ssa.Parameter:
+			if a := lv.E.arg(x); a != nil {
+				walk(c11LV{a, lv.E.parent}, d+1)
+				return
+			}
+		case *ssa.UnOp:
+			if x.Op == token.MUL {
+				if cell := c18Cell(x.X); cell != nil {
+					ce := lv.E.envOf(cell.Parent())
+					n := 0
+					for _, st := range c18CellStores(cell) {
+						n++
+						se := ce
+						if st.Parent() != ce.fn {
+							se = &c11Env{fn: st.Parent(), parent: ce, depth: ce.depth}
+						}
+						walk(c11LV{st.Val, se}, d+1)
+					}
+					if n > 0 {
+						return
+					}
+				}
+			}
+		}
+		out = append(out, lv)
+	}
+	walk(lv, 0)
+	return out
+}
+
+// c11ValueReturns lists the values a followed helper returns as result #idx on its non-error returns.
+func (c *Ctx) c11ValueReturns(h *ssa.Function, idx int) []ssa.Value {
+	var out []ssa.Value
+	for _, r := range c.successTargets(h) {
+		if idx >= len(r.Ret.Results) {
+			return nil
+		}
+		v := r.Ret.Results[idx]
+		if phi, ok := v.(*ssa.Phi); ok && r.Pred != nil && phi.Block() == r.Ret.Block() {
+			for i, p := range phi.Block().Preds {
+				if p == r.Pred {
+					v = phi.Edges[i]
+				}
+			}
+		}
+		out = append(out, v)
+	}
+	return out
+}
+
+// c11All: lv has leaves and every one of them satisfies pred, where a leaf that is the result of a
+// followed helper is replaced by what that helper returns (value helper).
+func (c *Ctx) c11All(lv c11LV, pred func(c11LV) bool) bool {
+	var rec func(lv c11LV, d int) bool
+	rec = func(lv c11LV, d int) bool {
+		ls := c11Leaves(lv)
+		if len(ls) == 0 {
+			return false
+		}
+		for _, l := range ls {
+			if pred(l) {
+				continue
+			}
+			call, idx := originCall(l.V)
+			if call == nil || d >= InlineDepth {
+				return false
+			}
+			he := l.E.enter(call)
+			if he == nil {
+				return false
+			}
+			rets := c.c11ValueReturns(he.fn, idx)
+			if len(rets) == 0 {
+				return false
+			}
+			for _, r := range rets {
+				if !rec(c11LV{r, he}, d+1) {
+					return false
+				}
+			}
+		}
+		return true
+	}
+	return rec(lv, 0)
+}
+
+// c11LeavesDeep: the leaves of lv, where a leaf that is the result of a followed helper is replaced
+// by the leaves of what the helper returns on its non-error returns.
+func (c *Ctx) c11LeavesDeep(lv c11LV) []c11LV {
+	var out []c11LV
+	seen := map[c11LV]bool{}
+	var rec func(lv c11LV, d int)
+	rec = func(lv c11LV, d int) {
+		for _, l := range c11Leaves(lv) {
+			if seen[l] {
+				continue
+			}
+			seen[l] = true
+			if call, idx := originCall(l.V); call != nil && d < InlineDepth {
+				if he := l.E.enter(call); he != nil {
+					if rets := c.c11ValueReturns(he.fn, idx); len(rets) > 0 {
+						for _, r := range rets {
+							rec(c11LV{r, he}, d+1)
+						}
+						continue
+					}
+				}
+			}
+			out = append(out, l)
+		}
+	}
+	rec(lv, 0)
+	return out
+}
+
+// c11SameDeepLeaves: x has leaves (value helpers looked into) and each of them is a leaf of one of set.
+func (c *Ctx) c11SameDeepLeaves(x c11LV, set []c11LV) bool {
+	have := map[c11LV]bool{}
+	for _, s := range set {
+		for _, l := range c.c11LeavesDeep(s) {
+			have[l] = true
+		}
+	}
+	ls := c.c11LeavesDeep(x)
+	if len(ls) == 0 {
+		return false
+	}
+	for _, l := range ls {
+		if !have[l] {
+			return false
+		}
+	}
+	return true
+}
+
+// c11One: lv resolves to exactly one leaf (through phis, cells, parameters) and returns it.
+func (c *Ctx) c11One(lv c11LV) (c11LV, bool) {
+	ls := c11Leaves(lv)
+	if len(ls) == 1 {
+		return ls[0], true
+	}
+	return c11LV{}, false
+}
+
+// c11LVFrom: every origin of lv is result #idx of a call to obj.
+func (c *Ctx) c11LVFrom(lv c11LV, obj types.Object, idx int) bool {
+	return c.c11All(lv, func(l c11LV) bool { return c11CallOf(l.V, obj, idx) != nil })
+}
+
+// c11LVField: every origin of lv is a load of field f.
+func (c *Ctx) c11LVField(lv c11LV, f *types.Var) bool {
+	return f != nil && c.c11All(lv, func(l c11LV) bool { return readsField(l.V, f) })
+}
+
+// c11LVConstInt / c11LVConstString / c11LVNil: every origin of lv is that constant.
+func (c *Ctx) c11LVConstInt(lv c11LV, want int64) bool {
+	return c.c11All(lv, func(l c11LV) bool { v, ok := constInt(l.V); return ok && v == want })
+}
+
+func (c *Ctx) c11LVConstString(lv c11LV, want string) bool {
+	return c.c11All(lv, func(l c11LV) bool { v, ok := constString(l.V); return ok && v == want })
+}
+
+func (c *Ctx) c11LVNil(lv c11LV) bool {
+	return c.c11All(lv, func(l c11LV) bool { return isNilConst(l.V) })
+}
+
+// c11Dep: lv must-depends (mustDepend) on a value satisfying pred, where a parameter of a followed
+// helper depends on what the caller's argument depends on and the result of a followed helper on
+// what its returned values depend on (every non-constant returned value, at least one).
+func (c *Ctx) c11Dep(lv c11LV, pred func(ssa.Value) bool) bool {
+	return c.c11DepLV(lv, func(l c11LV) bool { return pred(l.V) })
+}
+
+func (c *Ctx) c11DepLV(lv c11LV, pred func(c11LV) bool) bool {
+	var rec func(lv c11LV, d int) bool
+	rec = func(lv c11LV, d int) bool {
+		if lv.V == nil || lv.E == nil || d > 2*InlineDepth {
+			return false
+		}
+		results := func(he *c11Env, idx int) bool { // idx < 0: any non-error result
+			n := 0
+			for _, r := range c.successTargets(he.fn) {
+				for i, res := range r.Ret.Results {
+					if isErrorType(res.Type()) || (idx >= 0 && i != idx) {
+						continue
+					}
+					if _, isC := res.(*ssa.Const); isC {
+						continue
+					}
+					if !rec(c11LV{res, he}, d+1) {
+						return false
+					}
+					n++
+				}
+			}
+			return n > 0
+		}
+		return mustDepend(lv.E.fn, lv.V, func(x ssa.Value) bool {
+			if pred(c11LV{x, lv.E}) {
+				return true
+			}
+			switch y := x.(type) {
+			case *ssa.Parameter:
+				if a := lv.E.arg(y); a != nil {
+					return rec(c11LV{a, lv.E.parent}, d+1)
+				}
+			case *ssa.Extract:
+				if call, ok := y.Tuple.(*ssa.Call); ok {
+					if he := lv.E.enter(call); he != nil {
+						return results(he, y.Index)
+					}
+				}
+			case *ssa.Call:
+				if _, isTuple := y.Type().(*types.Tuple); !isTuple {
+					if he := lv.E.enter(y); he != nil {
+						return results(he, 0)
+					}
+				}
+			}
+			return false
+		})
+	}
+	return rec(lv, 0)
+}
+
+// c11Fact says what establishes a fact.
+type c11Fact struct {
+	cond  func(lv c11LV, want bool) bool                                     // boolean value lv being want establishes it
+	instr func(in ssa.Instruction, e *c11Env) bool                           // executing in establishes it
+	errOK func(call ssa.CallInstruction, e *c11Env) bool                     // call returning a nil error establishes it
+	boolR func(call ssa.CallInstruction, e *c11Env) (idx int, want, ok bool) // result #idx of call being want establishes it
+}
+
+// c11AnyFact: any one of the facts.
+func c11AnyFact(fs ...c11Fact) c11Fact {
+	return c11Fact{
+		cond: func(lv c11LV, want bool) bool {
+			for _, f := range fs {
+				if f.cond != nil && f.cond(lv, want) {
+					return true
+				}
+			}
+			return false
+		},
+		instr: func(in ssa.Instruction, e *c11Env) bool {
+			for _, f := range fs {
+				if f.instr != nil && f.instr(in, e) {
+					return true
+				}
+			}
+			return false
+		},
+		errOK: func(call ssa.CallInstruction, e *c11Env) bool {
+			for _, f := range fs {
+				if f.errOK != nil && f.errOK(call, e) {
+					return true
+				}
+			}
+			return false
+		},
+		boolR: func(call ssa.CallInstruction, e *c11Env) (int, bool, bool) {
+			for _, f := range fs {
+				if f.boolR != nil {
+					if i, w, ok := f.boolR(call, e); ok {
+						return i, w, true
+					}
+				}
+			}
+			return 0, false, false
+		},
+	}
+}
+
+// c11CmpFact: a comparison X == Y (X != Y when eq is false) whose operands satisfy match in either order.
+func c11CmpFact(eq bool, match func(x, y c11LV) bool) c11Fact {
+	return c11Fact{cond: func(lv c11LV, want bool) bool {
+		bo, ok := lv.V.(*ssa.BinOp)
+		if !ok || (bo.Op != token.EQL && bo.Op != token.NEQ) {
+			return false
+		}
+		if (bo.Op == token.EQL) != (want == eq) {
+			return false
+		}
+		x, y := c11LV{bo.X, lv.E}, c11LV{bo.Y, lv.E}
+		return match(x, y) || match(y, x)
+	}}
+}
+
+// c11RelFact: an ordering/equality comparison "L op R" (mirrored and negated as needed) accepted by ok.
+func c11RelFact(isL, isR func(c11LV) bool, ok func(op token.Token) bool) c11Fact {
+	mirror := map[token.Token]token.Token{token.LSS: token.GTR, token.GTR: token.LSS, token.LEQ: token.GEQ, token.GEQ: token.LEQ, token.EQL: token.EQL, token.NEQ: token.NEQ}
+	negate := map[token.Token]token.Token{token.LSS: token.GEQ, token.GEQ: token.LSS, token.GTR: token.LEQ, token.LEQ: token.GTR, token.EQL: token.NEQ, token.NEQ: token.EQL}
+	return c11Fact{cond: func(lv c11LV, want bool) bool {
+		bo, isBo := lv.V.(*ssa.BinOp)
+		if !isBo {
+			return false
+		}
+		op, known := bo.Op, false
+		if _, known = mirror[op]; !known {
+			return false
+		}
+		if !want {
+			op = negate[op]
+		}
+		x, y := c11LV{bo.X, lv.E}, c11LV{bo.Y, lv.E}
+		switch {
+		case isL(x) && isR(y):
+			return ok(op)
+		case isL(y) && isR(x):
+			return ok(mirror[op])
+		}
+		return false
+	}}
+}
+
+// c11CallFact: executing a call to obj establishes the fact.
+func c11CallFact(obj types.Object) c11Fact {
+	return c11Fact{instr: func(in ssa.Instruction, _ *c11Env) bool {
+		_, ok := isCallTo(in, obj)
+		if _, isCall := in.(*ssa.Call); !isCall {
+			return false
+		}
+		return ok
+	}}
+}
+
+type c11CutInfo struct {
+	cuts *Cuts
+	n    int // number of cut items placed in this body (0 = the fact is established nowhere in it)
+}
+
+type c11Sum struct {
+	always   bool // every return is behind the fact
+	onNilErr bool // every possibly-nil-error return is behind the fact
+	hasErr   bool
+	bools    map[[2]int]bool
+}
+
+// c11Query evaluates one fact over bodies.
+type c11Query struct {
+	c    *Ctx
+	fact c11Fact
+	cuts map[*c11Env]*c11CutInfo
+	sums map[*c11Env]*c11Sum
+	// errRet marks returns of a body that are error returns although their error operand is not
+	// syntactically non-nil (rule-specific idioms); nil = none
+	errRet func(e *c11Env, r RetPoint) bool
+}
+
+// succTargets: the possibly-nil-error returns of body e.
+func (q *c11Query) succTargets(e *c11Env) []RetPoint {
+	var out []RetPoint
+	for _, r := range q.c.successTargets(e.fn) {
+		if q.errRet != nil && q.errRet(e, r) {
+			continue
+		}
+		out = append(out, r)
+	}
+	return out
+}
+
+func (c *Ctx) c11NewQuery(fact c11Fact) *c11Query {
+	return &c11Query{c: c, fact: fact, cuts: map[*c11Env]*c11CutInfo{}, sums: map[*c11Env]*c11Sum{}}
+}
+
+func c11IsBool(t types.Type) bool {
+	b, ok := t.Underlying().(*types.Basic)
+	return ok && b.Info()&types.IsBoolean != 0
+}
+
+func c11StripNot(v ssa.Value) (ssa.Value, bool) {
+	neg := false
+	for {
+		u, ok := v.(*ssa.UnOp)
+		if !ok || u.Op != token.NOT {
+			return v, neg
+		}
+		neg = !neg
+		v = u.X
+	}
+}
+
+// c11CondCuts adds the edges of fn on which boolean value v is known to equal want: the matching
+// successor of every If on v / !v, and -- for a boolean phi of the branching block one of whose
+// incoming values is v / !v ("ok := a && v; if ok") -- that successor for paths arriving through the
+// corresponding predecessor. Returns the number of edges added.
+func c11CondCuts(fn *ssa.Function, v ssa.Value, want bool, cuts *Cuts) int {
+	n := 0
+	for _, b := range fn.Blocks {
+		ifi := blockIf(b)
+		if ifi == nil {
+			continue
+		}
+		base, neg := c11StripNot(ifi.Cond)
+		if base == v {
+			idx := 1
+			if want != neg {
+				idx = 0
+			}
+			cuts.AddEdges(Edge{b, idx})
+			n++
+			continue
+		}
+		phi, ok := base.(*ssa.Phi)
+		if !ok || phi.Block() != b {
+			continue
+		}
+		for i, e := range phi.Edges {
+			eb, eneg := c11StripNot(e)
+			if eb != v || i >= len(b.Preds) {
+				continue
+			}
+			idx := 1
+			if want != (eneg != neg) {
+				idx = 0
+			}
+			cuts.AddVia(b.Preds[i], Edge{b, idx})
+			n++
+		}
+	}
+	return n
+}
+
+// c11NilTests lists the comparisons of fn that test error value e (or an alias) against nil.
+func c11NilTests(fn *ssa.Function, e ssa.Value) []*ssa.BinOp {
+	al := aliases(fn, e)
+	var out []*ssa.BinOp
+	allInstrs(fn, func(_ *ssa.BasicBlock, _ int, in ssa.Instruction) {
+		bo, ok := in.(*ssa.BinOp)
+		if !ok || (bo.Op != token.EQL && bo.Op != token.NEQ) {
+			return
+		}
+		if (al[bo.X] && isNilConst(bo.Y)) || (al[bo.Y] && isNilConst(bo.X)) {
+			out = append(out, bo)
+		}
+	})
+	return out
+}
+
+// c11NilErrCuts adds the edges of fn on which the error result of call is known nil (failing: non-nil).
+// A call whose error is handed straight to the function's own return ("return step(...)") counts as
+// a whole: the function succeeds only if the call did. Returns the number of cut items.
+func c11NilErrCuts(fn *ssa.Function, call ssa.CallInstruction, cuts *Cuts, failing bool) int {
+	n := 0
+	v := call.Value()
+	if v == nil {
+		return 0
+	}
+	for _, e := range errResults(v) {
+		for _, bo := range c11NilTests(fn, e) {
+			n += c11CondCuts(fn, bo, (bo.Op == token.EQL) != failing, cuts)
+		}
+		if !failing && c11OnlyReturned(e) {
+			cuts.AddInstrs(call)
+			n++
+		}
+	}
+	return n
+}
+
+// c11OnlyReturned: the value is used only as an operand of Return instructions.
+func c11OnlyReturned(e ssa.Value) bool {
+	refs := e.Referrers()
+	if refs == nil {
+		return false
+	}
+	n := 0
+	for _, r := range *refs {
+		switch r.(type) {
+		case *ssa.Return:
+			n++
+		case *ssa.DebugRef:
+		default:
+			return false
+		}
+	}
+	return n > 0
+}
+
+// cutsOf builds the cut set of body e for the query's fact.
+func (q *c11Query) cutsOf(e *c11Env) *c11CutInfo {
+	if ci, ok := q.cuts[e]; ok {
+		return ci
+	}
+	ci := &c11CutInfo{cuts: newCuts()}
+	q.cuts[e] = ci
+	fn := e.fn
+	tryCond := func(v ssa.Value) {
+		for _, want := range []bool{true, false} {
+			if q.implies(c11LV{v, e}, want, 0) {
+				ci.n += c11CondCuts(fn, v, want, ci.cuts)
+			}
+		}
+	}
+	for _, p := range fn.Params {
+		if c11IsBool(p.Type()) && e.parent != nil {
+			tryCond(p)
+		}
+	}
+	allInstrs(fn, func(_ *ssa.BasicBlock, _ int, in ssa.Instruction) {
+		if q.fact.instr != nil && q.fact.instr(in, e) {
+			ci.cuts.AddInstrs(in)
+			ci.n++
+			return
+		}
+		if v, ok := in.(ssa.Value); ok && c11IsBool(v.Type()) {
+			switch x := in.(type) {
+			case *ssa.Phi:
+			case *ssa.UnOp:
+				if x.Op != token.NOT {
+					tryCond(v)
+				}
+			default:
+				tryCond(v)
+			}
+		}
+		call, ok := in.(*ssa.Call)
+		if !ok {
+			return
+		}
+		if q.fact.errOK != nil && q.fact.errOK(call, e) {
+			ci.n += c11NilErrCuts(fn, call, ci.cuts, false)
+			return
+		}
+		if q.fact.boolR != nil {
+			if idx, want, ok := q.fact.boolR(call, e); ok {
+				if r := extractN(call, idx); r != nil {
+					ci.n += c11CondCuts(fn, r, want, ci.cuts)
+				}
+				return
+			}
+		}
+		he := e.enter(call)
+		if he == nil {
+			return
+		}
+		s := q.summary(he)
+		switch {
+		case s.always:
+			ci.cuts.AddInstrs(call)
+			ci.n++
+		case s.onNilErr:
+			ci.n += c11NilErrCuts(fn, call, ci.cuts, false)
+		}
+	})
+	// boolean variables assembled from several conditions ("ok := a || b; …; if ok"): decided with
+	// the cuts found so far
+	allInstrs(fn, func(_ *ssa.BasicBlock, _ int, in ssa.Instruction) {
+		if phi, ok := in.(*ssa.Phi); ok && c11IsBool(phi.Type()) {
+			tryCond(phi)
+		}
+	})
+	return ci
+}
+
+// implies: boolean value lv being want establishes the fact.
+func (q *c11Query) implies(lv c11LV, want bool, d int) bool {
+	if d > 8 || lv.V == nil {
+		return false
+	}
+	if q.fact.cond != nil && q.fact.cond(lv, want) {
+		return true
+	}
+	switch x := lv.V.(type) {
+	case *ssa.UnOp:
+		if x.Op == token.NOT {
+			return q.implies(c11LV{x.X, lv.E}, !want, d+1)
+		}
+	case *ssa.Parameter:
+		if a := lv.E.arg(x); a != nil {
+			return q.implies(c11LV{a, lv.E.parent}, want, d+1)
+		}
+	case *ssa.Phi:
+		// "a || b" as a value: each incoming value that can be want implies the fact, or flows in
+		// through an edge that lies behind it
+		if len(x.Block().Instrs) == 0 {
+			return false
+		}
+		ci := q.cutsOf(lv.E)
+		n := 0
+		for i, e := range x.Edges {
+			k, isC := constBool(e)
+			if isC && k != want {
+				continue
+			}
+			n++
+			if !isC && q.implies(c11LV{e, lv.E}, want, d+1) {
+				continue
+			}
+			if findPath(entryPoint(lv.E.fn), Target{Instr: x.Block().Instrs[0], Pred: x.Block().Preds[i]}, ci.cuts) != nil {
+				return false
+			}
+		}
+		return n > 0
+	case *ssa.Call, *ssa.Extract:
+		call, idx := originCall(lv.V)
+		if call == nil {
+			return false
+		}
+		if q.fact.boolR != nil {
+			if i, w, ok := q.fact.boolR(call, lv.E); ok && i == idx && w == want {
+				return true
+			}
+		}
+		if he := lv.E.enter(call); he != nil {
+			if !q.boolResult(he, idx, want) {
+				return false
+			}
+			// when the helper also returns an error, that error must not be ignored
+			for _, e := range errResults(call.Value()) {
+				if len(c11NilTests(lv.E.fn, e)) == 0 && !c11OnlyReturned(e) {
+					return false
+				}
+			}
+			return true
+		}
+	}
+	return false
+}
+
+// summary: which outcomes of helper body he imply the fact.
+func (q *c11Query) summary(he *c11Env) *c11Sum {
+	if s, ok := q.sums[he]; ok {
+		return s
+	}
+	s := &c11Sum{bools: map[[2]int]bool{}}
+	q.sums[he] = s
+	ci := q.cutsOf(he)
+	if ci.n == 0 {
+		return s
+	}
+	h := he.fn
+	rets := q.c.returnsOf(h)
+	s.always = len(rets) > 0
+	for _, r := range rets {
+		if findPath(entryPoint(h), r.Target(), ci.cuts) != nil {
+			s.always = false
+			break
+		}
+	}
+	res := h.Signature.Results()
+	for i := 0; i < res.Len(); i++ {
+		if isErrorType(res.At(i).Type()) {
+			s.hasErr = true
+		}
+	}
+	if s.hasErr && !s.always {
+		succ := q.succTargets(he)
+		s.onNilErr = len(succ) > 0
+		for _, r := range succ {
+			if findPath(entryPoint(h), r.Target(), ci.cuts) != nil {
+				s.onNilErr = false
+				break
+			}
+		}
+	}
+	return s
+}
+
+// boolResult: result #idx of helper body he being want implies the fact: every return that can
+// yield want either returns a value that itself implies it, or lies behind the fact.
+func (q *c11Query) boolResult(he *c11Env, idx int, want bool) bool {
+	s := q.summary(he)
+	w := 0
+	if want {
+		w = 1
+	}
+	if r, ok := s.bools[[2]int{idx, w}]; ok {
+		return r
+	}
+	s.bools[[2]int{idx, w}] = false
+	h := he.fn
+	if idx >= h.Signature.Results().Len() || !c11IsBool(h.Signature.Results().At(idx).Type()) {
+		return false
+	}
+	ci := q.cutsOf(he)
+	okAll, n := true, 0
+	// a helper that also returns an error: its boolean is meaningful on the nil-error returns (the
+	// caller has to test the error, see implies)
+	var live map[*ssa.Return]bool
+	if s.hasErr {
+		live = map[*ssa.Return]bool{}
+		for _, r := range q.succTargets(he) {
+			live[r.Ret] = true
+		}
+	}
+	for _, b := range h.Blocks {
+		if len(b.Instrs) == 0 {
+			continue
+		}
+		ret, isRet := b.Instrs[len(b.Instrs)-1].(*ssa.Return)
+		if !isRet || idx >= len(ret.Results) || (live != nil && !live[ret]) {
+			continue
+		}
+		type inc struct {
+			v    ssa.Value
+			pred *ssa.BasicBlock
+		}
+		var incs []inc
+		if phi, isPhi := ret.Results[idx].(*ssa.Phi); isPhi && phi.Block() == b {
+			for i, e := range phi.Edges {
+				incs = append(incs, inc{e, b.Preds[i]})
+			}
+		} else {
+			incs = append(incs, inc{ret.Results[idx], nil})
+		}
+		for _, in := range incs {
+			if k, isC := constBool(in.v); isC && k != want {
+				continue
+			}
+			n++
+			if _, isC := constBool(in.v); !isC && q.implies(c11LV{in.v, he}, want, 1) {
+				continue
+			}
+			if findPath(entryPoint(h), Target{Instr: ret, Pred: in.pred}, ci.cuts) != nil {
+				okAll = false
+			}
+		}
+	}
+	res := okAll && n > 0
+	s.bools[[2]int{idx, w}] = res
+	return res
+}
+
+// c11Pass: one obligation "every path of root's body from start (nil = entry) to a target passes
+// fact (or alt, which does not count as the check being present)".
+func (c *Ctx) c11Pass(rule, construct string, root *c11Env, start *Point, targets []Target, fact c11Fact, alt *c11Fact, what string, pos token.Pos) bool {
+	n := c.c11NewQuery(fact).cutsOf(root).n
+	f := fact
+	if alt != nil {
+		f = c11AnyFact(fact, *alt)
+	}
+	cuts := c.c11NewQuery(f).cutsOf(root).cuts
+	return c.c11MustPass(rule, construct, root.fn, start, targets, cuts, n, what, pos)
+}
+
+// c11StoreSite is a store to a field, in a root body or in a helper it calls.
+type c11StoreSite struct {
+	site ssa.Instruction // the instruction of the root body: the store itself or the call that leads to it
+	st   *ssa.Store
+	val  c11LV // the stored value, in the body the store is written in
+	env  *c11Env
+}
+
+// c11Stores lists the stores to field f in body e and in the same-package helpers it calls (setter
+// methods, extracted steps). Closures are not descended into unless called.
+func c11Stores(e *c11Env, f *types.Var) []c11StoreSite {
+	return c11StoresWhere(e, func(st *ssa.Store) bool {
+		fa, ok := st.Addr.(*ssa.FieldAddr)
+		return ok && fieldOfAddr(fa) == f
+	})
+}
+
+func c11StoresWhere(e *c11Env, match func(*ssa.Store) bool) []c11StoreSite {
+	var out []c11StoreSite
+	var walk func(e *c11Env, site ssa.Instruction)
+	walk = func(e *c11Env, site ssa.Instruction) {
+		allInstrs(e.fn, func(_ *ssa.BasicBlock, _ int, in ssa.Instruction) {
+			s := site
+			if s == nil {
+				s = in
+			}
+			if st, ok := in.(*ssa.Store); ok && match(st) {
+				out = append(out, c11StoreSite{site: s, st: st, val: c11LV{st.Val, e}, env: e})
+				return
+			}
+			if call, ok := in.(*ssa.Call); ok {
+				if he := e.enter(call); he != nil {
+					walk(he, s)
+				}
+			}
+		})
+	}
+	walk(e, nil)
+	return out
+}
+
+// c11CallSitesIn lists the calls to obj in body e and in the same-package helpers it calls; site is
+// the instruction of the root body.
+type c11CallSite struct {
+	site ssa.Instruction
+	call ssa.CallInstruction
+	env  *c11Env
+}
+
+func c11CallsTo(e *c11Env, match func(ssa.CallInstruction) bool) []c11CallSite {
+	var out []c11CallSite
+	var walk func(e *c11Env, site ssa.Instruction)
+	walk = func(e *c11Env, site ssa.Instruction) {
+		allInstrs(e.fn, func(_ *ssa.BasicBlock, _ int, in ssa.Instruction) {
+			call, ok := in.(ssa.CallInstruction)
+			if !ok {
+				return
+			}
+			s := site
+			if s == nil {
+				s = in
+			}
+			if match(call) {
+				out = append(out, c11CallSite{site: s, call: call, env: e})
+				return
+			}
+			if he := e.enter(call); he != nil {
+				walk(he, s)
+			}
+		})
+	}
+	walk(e, nil)
+	return out
+}
+
+// c11ValueUses: the module functions that use a function as a value (anything but calling it).
+func (c *Ctx) c11UsedAsValue(g *ssa.Function) bool {
+	for _, fn := range c.ModFns {
+		used := false
+		allInstrs(fn, func(_ *ssa.BasicBlock, _ int, in ssa.Instruction) {
+			if used {
+				return
+			}
+			var callee ssa.Value
+			if call, ok := in.(ssa.CallInstruction); ok {
+				callee = call.Common().Value
+			}
+			for _, op := range in.Operands(nil) {
+				if *op == ssa.Value(g) && *op != callee {
+					used = true
+				}
+				if *op == ssa.Value(g) && *op == callee {
+					// the callee operand; but the function may also be an argument of the same call
+					for _, a := range in.(ssa.CallInstruction).Common().Args {
+						if a == ssa.Value(g) {
+							used = true
+						}
+					}
+				}
+			}
+		})
+		if used {
+			return true
+		}
+	}
+	return false
+}
+
+// c11HelperOf: g is an unexported function (or closure) that is only ever called, and only from the
+// allowed functions or from other such helpers: what it does, the allowed functions do.
+func (c *Ctx) c11HelperOf(g *ssa.Function, allow map[*ssa.Function]bool, depth int) bool {
+	g = topFn(g)
+	if allow[g] {
+		return true
+	}
+	if depth <= 0 || g.Object() == nil || g.Object().Exported() || c.c11UsedAsValue(g) {
+		return false
+	}
+	sites := c.callSites(g.Object())
+	if len(sites) == 0 {
+		return false
+	}
+	for _, cs := range sites {
+		if _, isCall := cs.Call.(*ssa.Call); !isCall {
+			return false
+		}
+		if t := topFn(cs.Fn); t != g && !c.c11HelperOf(t, allow, depth-1) {
+			return false
+		}
+	}
+	return true
+}
+
+// c11WhoMay: every writer is an allowed function or a helper only reachable from the allowed ones.
+func (c *Ctx) c11WhoMay(rule, what string, writers map[*ssa.Function]token.Pos, allow map[*ssa.Function]bool) {
+	var wr []*ssa.Function
+	for f := range writers {
+		wr = append(wr, f)
+	}
+	sort.Slice(wr, func(i, j int) bool { return fnName(wr[i]) < fnName(wr[j]) })
+	for _, f := range wr {
+		t := topFn(f)
+		construct := what + "@" + fnName(t)
+		switch {
+		case allow[t]:
+			c.Ok(rule, construct, fnName(t)+" is an allowed site of "+what, writers[f])
+		case c.c11HelperOf(t, allow, InlineDepth):
+			c.Ok(rule, construct, fnName(t)+" is an unexported helper called only from the allowed sites of "+what+" ("+allowNames(allow)+")", writers[f])
+		default:
+			c.Violate(rule, construct, fnName(t)+" must not "+what+" (allowed: "+allowNames(allow)+")", writers[f])
+		}
+	}
+}
+
+// guards: every path to instruction in (of body e) passes the fact, at some level of the call chain:
+// inside e from its entry, or in a caller on the way to the call that leads to e. start replaces the
+// entry of the root body. Returns a witness path of the root level when not.
+func (q *c11Query) guards(start *Point, e *c11Env, in ssa.Instruction) (bool, []*ssa.BasicBlock) {
+	for {
+		st := entryPoint(e.fn)
+		if e.parent == nil && start != nil {
+			st = *start
+		}
+		p := findPath(st, Target{Instr: in}, q.cutsOf(e).cuts)
+		if p == nil {
+			return true, nil
+		}
+		if e.parent == nil {
+			return false, p
+		}
+		in, e = e.call, e.parent
+	}
+}
+
+// c11PassTo: one obligation "every path (of the root body, from start or its entry) to instruction
+// in of body e passes fact (or alt)".
+func (c *Ctx) c11PassTo(rule, construct string, start *Point, e *c11Env, in ssa.Instruction, fact c11Fact, alt *c11Fact, what string) bool {
+	root := e.root()
+	if c.c11NewQuery(fact).cutsOf(root).n == 0 {
+		// the fact may still be established inside the helper that contains the instruction
+		n := 0
+		for a := e; a != nil; a = a.parent {
+			n += c.c11NewQuery(fact).cutsOf(a).n
+		}
+		if n == 0 {
+			c.Violate(rule, construct, fnName(root.fn)+" has no such check: "+what, in.Pos())
+			return false
+		}
+	}
+	f := fact
+	if alt != nil {
+		f = c11AnyFact(fact, *alt)
+	}
+	ok, p := c.c11NewQuery(f).guards(start, e, in)
+	if !ok {
+		c.Violate(rule, construct, "reachable without passing "+what, in.Pos(), c.describePath(p)...)
+		return false
+	}
+	c.Ok(rule, construct, "every path to it passes "+what, in.Pos())
+	return true
+}
+
+// c11SplitPart: lv is parts[k] of strings.Split(src, ".") with src satisfying isSource. Returns k.
+func (c *Ctx) c11SplitPart(lv c11LV, isSource func(c11LV) bool) (int, bool) {
+	res, found, bad := 0, false, false
+	ok := c.c11All(lv, func(l c11LV) bool {
+		ld, isLd := l.V.(*ssa.UnOp)
+		if !isLd || ld.Op != token.MUL {
+			return false
+		}
+		ia, isIA := ld.X.(*ssa.IndexAddr)
+		if !isIA {
+			return false
+		}
+		k, isC := constInt(ia.Index)
+		if !isC {
+			return false
+		}
+		if !c.c11IsSplit(c11LV{ia.X, l.E}, isSource) {
+			return false
+		}
+		if found && int(k) != res {
+			bad = true
+		}
+		res, found = int(k), true
+		return true
+	})
+	return res, ok && found && !bad
+}
+
+// c11IsSplit: lv is strings.Split(src, ".") with src satisfying isSource.
+func (c *Ctx) c11IsSplit(lv c11LV, isSource func(c11LV) bool) bool {
+	return c.c11All(lv, func(o c11LV) bool {
+		call, _ := originCall(o.V)
+		if call == nil {
+			return false
+		}
+		if co := calleeObj(call); co == nil || co.Pkg() == nil || co.Pkg().Path() != "strings" || co.Name() != "Split" {
+			return false
+		}
+		return c.c11LVConstString(c11LV{call.Common().Args[1], o.E}, ".") && isSource(c11LV{call.Common().Args[0], o.E})
+	})
+}
+
+// c11Base64Of: lv is result #0 of base64 DecodeString(src); returns src.
+func (c *Ctx) c11Base64Of(lv c11LV, src func(c11LV) bool) bool {
+	return c.c11All(lv, func(l c11LV) bool {
+		call, i := originCall(l.V)
+		if call == nil || i != 0 {
+			return false
+		}
+		if co := calleeObj(call); co == nil || co.Pkg() == nil || co.Pkg().Path() != "encoding/base64" || co.Name() != "DecodeString" {
+			return false
+		}
+		args := call.Common().Args
+		return src(c11LV{args[len(args)-1], l.E})
+	})
+}
+
+// c11TokenPartLV: lv is a JSON object decoded from part #k of strings.Split(<source>, "."): a load of a
+// local map cell filled by json.Unmarshal(base64.DecodeString(parts[k]), &cell) -- in the body itself or
+// in a helper that returns the decoded object. Returns k.
+func (c *Ctx) c11TokenPartLV(lv c11LV, isSource func(c11LV) bool) (int, bool) {
+	res, found, bad := 0, false, false
+	ok := c.c11All(lv, func(l c11LV) bool {
+		ld, isLd := l.V.(*ssa.UnOp)
+		if !isLd || ld.Op != token.MUL {
+			return false
+		}
+		cell, isCell := ld.X.(*ssa.Alloc)
+		if !isCell {
+			return false
+		}
+		n, good := 0, true
+		allInstrs(l.E.fn, func(_ *ssa.BasicBlock, _ int, in ssa.Instruction) {
+			call, isCall := in.(*ssa.Call)
+			if !isCall {
+				return
+			}
+			co := calleeObj(call)
+			if co == nil || co.Pkg() == nil || co.Pkg().Path() != "encoding/json" || co.Name() != "Unmarshal" {
+				return
+			}
+			if stripConv(call.Call.Args[1]) != ssa.Value(cell) {
+				return
+			}
+			n++
+			if !c.c11Base64Of(c11LV{call.Call.Args[0], l.E}, func(s c11LV) bool {
+				k, ok := c.c11SplitPart(s, isSource)
+				if !ok || (found && k != res) {
+					bad = true
+					return false
+				}
+				res, found = k, true
+				return true
+			}) {
+				good = false
+			}
+		})
+		return n > 0 && good
+	})
+	return res, ok && found && !bad
+}
+
+// c11ClaimStringLV: lv is the string value of claim key of a JSON object: Extract #0 of
+// TypeAssert(string) of (Extract #0 of) Lookup(obj, key); every origin must be of that form (constant ""
+// allowed when emptyOK) and obj must satisfy isObj.
+func (c *Ctx) c11ClaimStringLV(lv c11LV, key string, emptyOK bool, isObj func(c11LV) bool) bool {
+	n := 0
+	ok := c.c11All(lv, func(l c11LV) bool {
+		if s, isC := constString(l.V); isC && s == "" && emptyOK {
+			return true
+		}
+		v := l.V
+		if ex, isEx := v.(*ssa.Extract); isEx && ex.Index == 0 {
+			v = ex.Tuple
+		}
+		ta, isTA := v.(*ssa.TypeAssert)
+		if !isTA {
+			return false
+		}
+		if bt, isB := ta.AssertedType.Underlying().(*types.Basic); !isB || bt.Kind() != types.String {
+			return false
+		}
+		n++
+		return c.c11All(c11LV{ta.X, l.E}, func(m c11LV) bool {
+			x := m.V
+			if ex, isEx := x.(*ssa.Extract); isEx && ex.Index == 0 {
+				x = ex.Tuple
+			}
+			lk, isLk := x.(*ssa.Lookup)
+			if !isLk {
+				return false
+			}
+			return c.c11LVConstString(c11LV{lk.Index, m.E}, key) && isObj(c11LV{lk.X, m.E})
+		})
+	})
+	return ok && (n > 0 || emptyOK)
+}
+
+// c11SameLeaves: every leaf of x is a leaf of one of the values in set.
+func c11SameLeaves(x c11LV, set []c11LV) bool {
+	have := map[c11LV]bool{}
+	for _, s := range set {
+		for _, l := range c11Leaves(s) {
+			have[l] = true
+		}
+	}
+	ls := c11Leaves(x)
+	if len(ls) == 0 {
+		return false
+	}
+	for _, l := range ls {
+		if !have[l] {
+			return false
+		}
+	}
+	return true
+}
+
+// c11IsNowLV: lv is time.Now().Unix().
+func (c *Ctx) c11IsNowLV(lv c11LV) bool {
+	return c.c11All(lv, func(l c11LV) bool { return c11IsNow(l.V) })
+}
+
+// c11Bodies lists root and every helper body followed from it (each once per call chain).
+func c11Bodies(root *c11Env) []*c11Env {
+	var out []*c11Env
+	var walk func(e *c11Env)
+	walk = func(e *c11Env) {
+		out = append(out, e)
+		allInstrs(e.fn, func(_ *ssa.BasicBlock, _ int, in ssa.Instruction) {
+			if call, ok := in.(*ssa.Call); ok {
+				if he := e.enter(call); he != nil {
+					walk(he)
+				}
+			}
+		})
+	}
+	walk(root)
+	return out
+}
+
+// c11CmpEdges scans fn for branches on "X == Y" / "X != Y" (negations folded) whose operands satisfy
+// match in either order; returns the edges on which the operands are equal, resp. different.
+func c11CmpEdges(fn *ssa.Function, match func(x, y ssa.Value) bool) (eq, ne []Edge) {
+	for _, b := range fn.Blocks {
+		ifi := blockIf(b)
+		if ifi == nil {
+			continue
+		}
+		a := condAtom(ifi.Cond)
+		if a.Op != token.EQL && a.Op != token.NEQ {
+			continue
+		}
+		if !match(a.X, a.Y) && !match(a.Y, a.X) {
+			continue
+		}
+		isEq := a.Op == token.EQL
+		if a.Neg {
+			isEq = !isEq
+		}
+		if isEq {
+			eq = append(eq, Edge{b, 0})
+			ne = append(ne, Edge{b, 1})
+		} else {
+			eq = append(eq, Edge{b, 1})
+			ne = append(ne, Edge{b, 0})
+		}
+	}
+	return
 }
